@@ -223,7 +223,9 @@ def _collect_kill_texts(ret, texts):
 def shrink_candidates(case):
     import copy
 
-    prog = case['program']
+    prog = case.get('program')
+    if prog is None:
+        return
     # simplify step bodies
     for si, step in enumerate(prog['steps']):
         for bi in range(len(step['body'])):
